@@ -74,9 +74,18 @@ def close(self):
 @contract('plumpy.processes.Process.on_terminated', props=['C02'])
 def on_terminated(self):
     requires(wf_cleanups(self))
-    modifies(user_effects, self._cleanups, self._event_callbacks, self._closed)
+    requires(self._paused is None or isinstance(self._paused, asyncio.Future))
+    pf = self._paused
+    modifies(user_effects, self._cleanups, self._event_callbacks, self._closed, self._paused, attr(self._paused, '_state'), attr(self._paused, '_result'))
     raises_nothing()
     ensures('closed', truthy(self._closed))
+    # a stepping task that still sleeps on the pause is released (step_until_terminated() returns): the pause future is resolved
+    # and dropped -- there is nothing left to play
+    ensures('nothing_left_to_play', self._paused is None)
+    call_requires('plumpy.processes.Process.close', 'pause_released_before_closing',
+                  self._paused is None and implies(pf is not None, pf._state != 'PENDING'))
+    replay('nothing_left_to_play', 'control_histories')
+    replay('pause_released_before_closing', 'control_histories')
 
 
 @contract('plumpy.processes.Process.has_terminated', props=['C01'])
@@ -300,15 +309,6 @@ def spec_inputs(self):
     modifies()
     raises_nothing()
     ensures(ret is uf('inputs_ns', self))
-
-
-@contract('plumpy.ports.PortNamespace.validate', assumed=True)
-def ns_validate(self, port_values=None, breadcrumbs=()):
-    """ASSUMED here (C11 verifies the validators): returns None (accepted) or a PortValidationError; validators are user
-    code"""
-    modifies(user_effects)
-    ensures(ret is None or isinstance(ret, PortValidationError))
-    raises(Exception, True)
 
 
 # ------------------------------------------------------------------------------------------------ interrupt actions (C04, C05)
